@@ -93,6 +93,14 @@ func verifParam(name string) int {
 	return int(v)
 }
 
+// verifParamOr is verifParam with a default for parameters the job does not set.
+func verifParamOr(name string, def int) int {
+	if v, ok := verifParams[name]; ok {
+		return int(v)
+	}
+	return def
+}
+
 // verifBytes returns n arbitrary bytes (len = cap = n).
 func verifBytes(name string, n int) []byte { return verifBytesCap(name, n, n) }
 
